@@ -167,6 +167,37 @@ ParseMS(toks, L) ==
                  pout  == ParseArrays(right, L)
              IN  IF pin.ok /\ pout.ok THEN [ok |-> TRUE, ms |-> MapSpec(pin.arrs, pout.arrs)] ELSE ParseFail
 
+(* DEFINITE REJECTION AT TEXT LEVEL.  The grammar has exactly ONE arrow ("Expected expression of    *)
+(* form 'a -> b'"): a text without an arrow, or with two or more (`a[i] -> b[i] -> c[i]`, a          *)
+(* trailing / leading / doubled arrow), is no MapSpec text whatever stands between the arrows.  For  *)
+(* token sequences outside the grammar the specification otherwise requires only "rejected, or        *)
+(* accepted as a well-formed MapSpec" (the array-list scanner of the code is lenient); the arrow      *)
+(* count is excepted from that leniency: such a text MUST be rejected.  Whitespace is irrelevant.     *)
+ArrowCount(toks)     == Cardinality({i \in DOMAIN toks : toks[i] = "->"})
+TextMustReject(toks) == ArrowCount(toks) # 1
+
+(* the ways of getting the arrow count wrong, from the token sequence t of a sentence: the arrow      *)
+(* removed; the outputs repeated as a third part; a chained "next step" other[...] (the axes of the   *)
+(* last array under another name); the inputs repeated in front; a trailing, a leading, a doubled     *)
+(* arrow; every "," between arrays of the output side turned into an arrow.  A sequence.               *)
+ArrowMutants(t, othername) ==
+    LET u     == Squeeze(t)
+        p     == FirstPos(u, "->")
+        left  == SubSeq(u, 1, p - 1)
+        right == SubSeq(u, p + 1, Len(u))
+        lb    == CHOOSE i \in DOMAIN right : right[i] = "[" /\ \A j \in (i + 1)..Len(right) : right[j] # "["
+        chain == <<othername>> \o SubSeq(right, lb, Len(right))          \* other[<axes of the last output>]
+        commas == SelectSeq([i \in DOMAIN right |-> i], LAMBDA i : right[i] = "," /\ i > 1 /\ right[i - 1] = "]")
+    IN  <<[t |-> "arrow_removed",       toks |-> left \o right],
+          [t |-> "arrow_outputs_again", toks |-> u \o <<"->">> \o right],
+          [t |-> "arrow_chain",         toks |-> u \o <<"->">> \o chain],
+          [t |-> "arrow_inputs_again",  toks |-> left \o <<"->">> \o u],
+          [t |-> "arrow_trailing",      toks |-> u \o <<"->">>],
+          [t |-> "arrow_leading",       toks |-> <<"->">> \o u],
+          [t |-> "arrow_doubled",       toks |-> left \o <<"->", "->">> \o right]>>
+        \o [q \in DOMAIN commas |-> [t |-> "arrow_for_comma",
+                                     toks |-> left \o <<"->">> \o [right EXCEPT ![commas[q]] = "->"]]]
+
 ---------------------------------------------------------------------------
 (* Shapes.  MapSpec.shape(input_shapes, internal_shapes):                                          *)
 (*   insh[x]   the shape of input x (by position)                                                  *)
@@ -239,6 +270,60 @@ AddAxesClash(m, axs)   == \E a \in SeqElems(Arrays(m)) : \E q \in DOMAIN axs : a
 AddAxesAccepted(m, axs, L) == ~AddAxesClash(m, axs) /\ WellFormed(AddAxes(m, axs), L)
 
 ---------------------------------------------------------------------------
+(* OBJECTS AND HISTORIES.  A MapSpec object is an immutable VALUE: whatever a method returns is a     *)
+(* function of the AST (and the arguments) alone - not of what was called on the object before, nor   *)
+(* of what was called on the object it was derived from (the code caches `external_indices` in the    *)
+(* object; rename / add_axes / from_string(str(.)) build new objects from old ones).  A HISTORY is a  *)
+(* sequence of operations starting from a freshly constructed object:                                 *)
+(*   "attr"     read the derived attributes (input/output names and indices, external_indices)        *)
+(*   "keys"     use it as a map run does: shape(), then output_key / input_keys of all linear indices *)
+(*   "reparse"  continue with from_string(str(object))                                                *)
+(*   "add"      continue with object.add_axes(axs); the harness feeds the new object every input      *)
+(*              shape extended by the sizes nd (internal sizes extended when there is no input)       *)
+(*   "ren"      continue with object.rename(pairs)                                                    *)
+(* "attr" and "keys" leave the value as it is; the other three DERIVE the next object.  An OBJECT of  *)
+(* the specification is the AST plus the shapes it is observed with.  Observe(o) is everything the    *)
+(* code may be asked about o; it must hold for EVERY object of the history, at every later moment     *)
+(* (the earlier objects are unaffected by deriving from them).                                        *)
+Obj(m, insh, internal) == [m |-> m, insh |-> insh, internal |-> internal]
+Op(t, axs, nd, pairs)  == [t |-> t, axs |-> axs, nd |-> nd, pairs |-> pairs]      \* one uniform record
+OpAttr         == Op("attr", <<>>, <<>>, <<>>)
+OpKeys         == Op("keys", <<>>, <<>>, <<>>)
+OpReparse      == Op("reparse", <<>>, <<>>, <<>>)
+OpAdd(axs, nd) == Op("add", axs, nd, <<>>)
+OpRen(pairs)   == Op("ren", <<>>, <<>>, pairs)
+Derives(op)    == op.t \in {"reparse", "add", "ren"}
+
+StepObj(o, op, L) ==
+    CASE op.t = "add" -> Obj(AddAxes(o.m, op.axs),
+                             [x \in DOMAIN o.insh |-> o.insh[x] \o op.nd],              \* mapped from every input,
+                             IF o.m.ins = <<>> THEN o.internal \o op.nd ELSE o.internal) \* else internal axes
+      [] op.t = "ren" -> Obj(Rename(o.m, op.pairs), o.insh, o.internal)
+      [] op.t = "reparse" -> Obj(ParseMS(PrintMS(o.m), L).ms, o.insh, o.internal)
+      [] OTHER -> o
+
+(* an operation is part of a history only where the property gives it a meaning: an accepted          *)
+(* add_axes of named, distinct axes with one size each; a renaming to lexically fine names that keeps  *)
+(* the array names distinct (Regular)                                                                  *)
+OpEnabled(o, op, L) ==
+    CASE op.t = "add" -> /\ AddAxesAccepted(o.m, op.axs, L) /\ COLON \notin SeqElems(op.axs)
+                         /\ SeqDistinct(op.axs) /\ op.axs # <<>> /\ Len(op.nd) = Len(op.axs)
+      [] op.t = "ren" -> /\ \A q \in DOMAIN op.pairs : ArrayNameOK(op.pairs[q][2], L)
+                         /\ Regular(Rename(o.m, op.pairs))
+      [] OTHER -> TRUE
+
+Observe(o) ==
+    LET sh  == Shape(o.m, o.insh, o.internal)
+        ext == IF sh.ok THEN ExtShape(sh) ELSE <<>>
+        N   == IF sh.ok THEN SeqProduct(ext) ELSE 0
+    IN  [toks |-> PrintMS(o.m),                                                  \* str()
+         in_names |-> InputNames(o.m), out_names |-> OutputNames(o.m),           \* the derived attributes
+         out_idx |-> OutputIndices(o.m), ext_idx |-> ExternalIndices(o.m), in_idx |-> InputIndexSet(o.m),
+         shape |-> sh, ext |-> ext, n |-> N,                                     \* shape()
+         okeys |-> [l \in 1..N |-> OutputKey(o.m, ext, l - 1)],                  \* element l: linear index l-1
+         ikeys |-> [l \in 1..N |-> InputKeys(o.m, ext, l - 1)]]
+
+---------------------------------------------------------------------------
 (* THE LAWS (property C08).  Each is a predicate over one case; MC_MapSpecSem checks them as       *)
 (* invariants over its universes.                                                                  *)
 
@@ -246,6 +331,12 @@ AddAxesAccepted(m, axs, L) == ~AddAxesClash(m, axs) /\ WellFormed(AddAxes(m, axs
 LawRoundTrip(m, L)  == ParseMS(PrintMS(m), L) = [ok |-> TRUE, ms |-> m]
 LawWhitespace(m, L) == /\ ParseMS(Spread(PrintMS(m)), L)  = [ok |-> TRUE, ms |-> m]
                        /\ ParseMS(Squeeze(PrintMS(m)), L) = [ok |-> TRUE, ms |-> m]
+
+(* a text whose arrow count is not one is no sentence - with or without whitespace - whatever else  *)
+(* it contains (ParseMS agrees with the definite rejection)                                          *)
+LawArrow(toks, L) == TextMustReject(toks) => /\ ~ParseMS(toks, L).ok
+                                             /\ ~ParseMS(Spread(toks), L).ok
+                                             /\ TextMustReject(Spread(toks))
 
 (* shape(): defined exactly when ranks fit, zipped dimensions agree and the internal sizes         *)
 (* suffice; then every named input axis has the size of the output axis of that name, and the      *)
@@ -319,4 +410,23 @@ LawAddAxesDenotes(m, axs, insh, internal, nd) ==
           /\ \A l \in 0..(SeqProduct(ExtShape(sh2)) - 1) : \A x \in DOMAIN m.ins :
                 InputKeys(m2, ExtShape(sh2), l)[x]
                   = InputKeys(m, ExtShape(sh), l \div P)[x] \o Unravel(nd, l % P)
+
+(* one step of a history: the object derived by an enabled operation is again a well-formed regular    *)
+(* MapSpec whose shape is defined for the shapes it is fed, and it denotes the mapping that the laws    *)
+(* above ascribe to the operation (reparse: the same AST; ren: the same mapping under the new names;   *)
+(* add: the extended mapping).  Observations are values of the AST alone, so "attr" / "keys" change     *)
+(* nothing: StepObj returns o itself.                                                                  *)
+LawStep(o, op, L) ==
+    LET n == StepObj(o, op, L)
+    IN  OpEnabled(o, op, L) =>
+          /\ WellFormed(n.m, L) /\ Regular(n.m)
+          /\ Shape(o.m, o.insh, o.internal).ok => Shape(n.m, n.insh, n.internal).ok
+          /\ ~Derives(op) => n = o
+          /\ op.t = "reparse" => n = o /\ LawRoundTrip(o.m, L)
+          /\ op.t = "ren" => LawRename(o.m, op.pairs, L) /\ LawRenameDenotes(o.m, op.pairs, o.insh, o.internal)
+          /\ op.t = "add" => /\ LawAddAxes(o.m, op.axs, L)
+                             /\ LawAddAxesDenotes(o.m, op.axs, o.insh, o.internal, op.nd)
+                             /\ o.m.ins = <<>> =>                              \* nothing to map from: internal axes
+                                   LET sh == Shape(o.m, o.insh, o.internal) sh2 == Shape(n.m, n.insh, n.internal)
+                                   IN  sh.ok => sh2.shape = sh.shape \o op.nd /\ ExtShape(sh2) = <<>>
 =============================================================================
